@@ -56,6 +56,39 @@ func txtFor(qname string) []string {
 	return []string{"q=" + n, strings.Repeat("p", 1+int(fnv64([]byte(n))%180))}
 }
 
+// bigName: a query name whose first label is 50 octets long and ends in
+// "-a<n>": the stub answers it with n A records under that owner — a reply
+// whose uncompressed form is far larger than its packed form (12+~70n vs ~16n).
+func bigName(c, seq, n int) string {
+	l := fmt.Sprintf("c%d-s%d-", c, seq)
+	tail := fmt.Sprintf("-a%d", n)
+	return l + strings.Repeat("x", 50-len(l)-len(tail)) + tail + ".z.c10."
+}
+
+func bigAnswers(qname string, n int) []dns.RR {
+	h := byte(fnv64([]byte(strings.ToLower(qname))) % 250)
+	out := make([]dns.RR, n)
+	for i := range out {
+		out[i] = &dns.A{Hdr: dns.RR_Header{Name: qname, Rrtype: dns.TypeA, Class: dns.ClassINET, Ttl: 300}, A: net.IPv4(10, byte(i), h, 7)}
+	}
+	return out
+}
+
+func bigCount(qname string) (int, bool) {
+	b := behOf(qname)
+	if len(b) >= 2 && b[0] == 'a' {
+		n := 0
+		for _, c := range b[1:] {
+			if c < '0' || c > '9' {
+				return 0, false
+			}
+			n = n*10 + int(c-'0')
+		}
+		return n, true
+	}
+	return 0, false
+}
+
 func stubRespond(req *dns.Msg) *dns.Msg {
 	q := req.Question[0]
 	if behOf(q.Name) == "nr" {
@@ -64,6 +97,11 @@ func stubRespond(req *dns.Msg) *dns.Msg {
 	m := new(dns.Msg)
 	m.SetReply(req)
 	m.RecursionAvailable = true
+	if n, ok := bigCount(q.Name); ok {
+		m.Compress = true
+		m.Answer = bigAnswers(q.Name, n)
+		return m
+	}
 	m.Answer = []dns.RR{&dns.TXT{Hdr: dns.RR_Header{Name: q.Name, Rrtype: dns.TypeTXT, Class: dns.ClassINET, Ttl: 300}, Txt: txtFor(q.Name)}}
 	return m
 }
@@ -239,6 +277,22 @@ func whyNotOwn(sent, got []byte) string {
 	if r.Rcode == dns.RcodeServerFailure && len(r.Answer) == 0 {
 		return "" // shed / timed out: its own failure reply
 	}
+	if n, ok := bigCount(name); ok {
+		if r.Truncated && len(r.Answer) == 0 {
+			return "" // did not fit this client's UDP size: its own truncation
+		}
+		want := bigAnswers(name, n)
+		if r.Rcode != dns.RcodeSuccess || len(r.Answer) != n {
+			return fmt.Sprintf("rcode=%d answers=%d, want %d", r.Rcode, len(r.Answer), n)
+		}
+		for i, rr := range r.Answer {
+			a, isA := rr.(*dns.A)
+			if !isA || !strings.EqualFold(a.Hdr.Name, name) || !a.A.Equal(want[i].(*dns.A).A) {
+				return fmt.Sprintf("answer %d is not this query's record", i)
+			}
+		}
+		return ""
+	}
 	if r.Rcode != dns.RcodeSuccess || len(r.Answer) != 1 {
 		return fmt.Sprintf("rcode=%d answers=%d", r.Rcode, len(r.Answer))
 	}
@@ -270,6 +324,14 @@ func startLive(listen bool, tweak func(*config.Config)) *srvh.Live {
 
 func srvPacket(r *vlib.R, c, seq int, shared []string) []byte {
 	id := uint16(c)<<10 | uint16(seq)
+	if r.Chance(1, 10) {
+		m := new(dns.Msg)
+		m.SetQuestion(bigName(c, seq, vlib.Pick(r, []int{58, 59, 60, 70})), dns.TypeA)
+		m.Id = id
+		m.SetEdns0(1232, false)
+		b, _ := m.Pack()
+		return b
+	}
 	switch k := r.Intn(20); {
 	case k < 9:
 		return mkQuery(id, fmt.Sprintf("c%d-s%d-ok.z.c10.", c, seq), r.Chance(4, 5))
@@ -616,6 +678,15 @@ func stressPacket(r *vlib.R, c, seq int, nShared int, st *stressStats, mine []st
 	default:
 		name = fmt.Sprintf("c%d-s%d-ok.z.c10.", c, seq)
 	}
+	if r.Chance(1, 16) {
+		// a reply that compresses from ~5 KB to ~1.2 KB (the Msg path: TryPack declines it)
+		m := new(dns.Msg)
+		m.SetQuestion(bigName(c, seq, vlib.Pick(r, []int{58, 59, 60, 66, 70})), dns.TypeA)
+		m.Id = id
+		m.SetEdns0(1232, false)
+		b, _ := m.Pack()
+		return b, ""
+	}
 	if r.Chance(1, 12) {
 		// a per-client static answer (views), in this client's own 0x20 spelling
 		m := new(dns.Msg)
@@ -957,6 +1028,14 @@ func dohClient(l *srvh.Live, c, n int, seed uint64, nShared int, st *stressStats
 		}
 		if name != "" && strings.HasSuffix(name, "-ok.z.c10.") && len(mine) < 32 {
 			mine = append(mine, name)
+		}
+		if r.Chance(1, 10) {
+			// a body that ends after the question although ARCOUNT says 1
+			m := new(dns.Msg)
+			m.SetQuestion(fmt.Sprintf("c%02d-s%04d-ok.z.c10.", c%100, seq), dns.TypeTXT)
+			m.Id = uint16(c)<<10 | uint16(seq)
+			raw, _ = m.Pack()
+			raw[11] = 1
 		}
 		st.sent.Add(1)
 		rec := httptest.NewRecorder()
